@@ -107,7 +107,7 @@ MIN_COUNTERS = {
                  "scenario_runs_compared": 40, "round_trips_kind_discipline": 1050, "round_trips_kind_scenario": 44,
                  "round_trips_kind_function": 100, "round_trips_kind_space": 32, "round_trips_kind_problem": 31,
                  "round_trips_kind_grammar": 64, "round_trips_kind_cache": 16, "factory_classes_covered": 60,
-                 "grammar_op_sequences": 400, "grammar_op_sequences_with_cached_read_then_required_edit": 150,
+                 "grammar_op_sequences": 400, "grammar_op_sequences_with_cached_read_then_required_edit": 110,
                  "grammar_ops_applied": 1000, "grammar_validation_verdicts_compared": 5000},
 }
 SHARD_TIMEOUT = {"quick": 3000, "thorough": 14000}  # generous: only a guard against hanging (the machine may be shared)
